@@ -529,8 +529,12 @@ def rule_pooledvar(ctx):
                 b = strip(strip(e["args"][0])["body"])
                 while b.get("k") == "Block" and not b.get("stmts") and b.get("e") is not None:
                     b = strip(b["e"])
-                if b.get("k") == "MethodCall" and b["name"] in ("powi", "powf") and b["args"] and str(peel_refs(b["args"][0]).get("v", "")).rstrip(".0f3264_") == "2":
-                    return peel_refs(e["recv"])
+                if b.get("k") == "MethodCall" and b["name"] in ("powi", "powf") and b["args"]:
+                    vv = str(peel_refs(b["args"][0]).get("v", ""))
+                    for suf in ("i32", "f32", "f64", "_"):
+                        vv = vv.replace(suf, "")
+                    if vv in ("2", "2.0", "2."):
+                        return peel_refs(e["recv"])
                 if b.get("k") == "Binary" and b["op"] == "*" and peel_refs(b["l"]).get("local") is not None and peel_refs(b["l"]).get("local") == peel_refs(b["r"]).get("local"):
                     return peel_refs(e["recv"])
             if e.get("k") == "Binary" and e["op"] == "*" and peel_refs(e["l"]).get("local") is not None and peel_refs(e["l"]).get("local") == peel_refs(e["r"]).get("local"):
